@@ -340,7 +340,19 @@ class Analyzer:
         return z3.Int(f'{hint}!{next(self.fresh)}')
 
     # ------------------------------------------------------------------------------------------ heap
+    def normalise(self, t):
+        """level(A[k]) <= max(k + lag, base) only matters outside the constant region: a base that is already below
+        cupto + lag says nothing there and is dropped (keeps later stores from inflating a lag to absorb it)"""
+        if t.base is not None and t.lag is not None and t.fill is not None and not _is0(t.cupto):
+            try:
+                if self.prove(zt(t.base) <= zt(t.cupto) + zt(t.lag)):
+                    return t.with_(base=None)
+            except z3.Z3Exception:
+                pass
+        return t
+
     def new_arr(self, t):
+        t = self.normalise(t)
         i = next(self.ids)
         self.st.heap[i] = t
         return ArrRef(i)
@@ -1285,7 +1297,7 @@ class Analyzer:
             ta, tb = sa.heap[a.id], sb.heap[b.id]
             m = self.merge_arrt(ta, tb, cl, None, None, same_obj=False)
             i = next(self.ids)
-            out.heap[i] = m.with_(site=None, view_of=None)
+            out.heap[i] = self.normalise(m.with_(site=None, view_of=None))
             return ArrRef(i)
         if isinstance(a, NT) and isinstance(b, NT) and a.t.name == b.t.name:
             return NT(a.t, [self.merge_value(x, y, c, sa, sb, out) for x, y in zip(a.vals, b.vals)])
@@ -1345,7 +1357,7 @@ class Analyzer:
         cl = c.lvl if c is not None else None
         for id_ in set(s1.heap) | set(s2.heap):
             if id_ in s1.heap and id_ in s2.heap:
-                out.heap[id_] = self.merge_arrt(s1.heap[id_], s2.heap[id_], cl, None, None)
+                out.heap[id_] = self.normalise(self.merge_arrt(s1.heap[id_], s2.heap[id_], cl, None, None))
             else:
                 out.heap[id_] = s1.heap.get(id_) or s2.heap.get(id_)
         for k in set(s1.env) | set(s2.env):
